@@ -635,6 +635,10 @@ func setFromParamVal(buf []byte, pf *PFromBody) ErrorHdr {
 						}
 						pf.Q = uint16(u*1000 + d)
 					}
+				} else {
+					// not a number or too big: q stays unset, flag it
+					pf.ParamErr = err
+					pf.ErrOffs = OffsT(pf.vstart)
 				}
 			} else {
 				err = ErrHdrValTooLong
@@ -665,17 +669,19 @@ func setFromParamVal(buf []byte, pf *PFromBody) ErrorHdr {
 
 func pUInt64Val(b []byte) (n uint64, err ErrorHdr) {
 
-	if len(b) > 20 {
-		err = ErrHdrValTooLong
-		return
-	}
-
 	for _, c := range b {
 		if c < '0' || c > '9' {
 			err = ErrHdrValNotNumber
 			return
 		}
-		n = n*10 + uint64(c-'0')
+		d := uint64(c - '0')
+		if n > (^uint64(0)-d)/10 {
+			// does not fit in 64 bits => saturate (never wrap)
+			n = ^uint64(0)
+			err = ErrHdrValTooLong
+		} else {
+			n = n*10 + d
+		}
 	}
 
 	return
